@@ -12,7 +12,10 @@ use std::io::Write;
 use std::path::{Path, PathBuf};
 use std::time::{Duration, Instant};
 
-pub const VERIF_DIR: &str = "/verif";
+/// root of the verification tree: $VERIF_DIR (set by ./check to its own directory), default /verif
+pub fn verif_dir() -> String {
+    std::env::var("VERIF_DIR").unwrap_or_else(|_| "/verif".to_string())
+}
 
 #[derive(Clone, Copy, PartialEq, Eq, Debug)]
 pub enum Tier {
@@ -174,6 +177,13 @@ impl Ctx {
         true
     }
     /// like take, but every shard evaluates it (cheap global cases); counted once (shard 0)
+    /// mark that the worker is no longer inside an enumerated case (a crash from here on is a
+    /// harness failure, not an observation about the last case)
+    pub fn outside_case(&mut self) {
+        if !self.progress.is_null() {
+            unsafe { std::ptr::write_volatile(self.progress, u64::MAX - 1) };
+        }
+    }
     pub fn is_capped(&self) -> bool {
         self.capped
     }
@@ -273,7 +283,7 @@ pub fn catch<T>(f: impl FnOnce() -> T) -> Result<T, String> {
 // worker side
 
 fn run_dir(id: &str, tier: Tier) -> PathBuf {
-    PathBuf::from(format!("{VERIF_DIR}/target/run/{id}-{}", tier.name()))
+    PathBuf::from(format!("{}/target/run/{id}-{}", verif_dir(), tier.name()))
 }
 
 pub fn worker_main(def: &PropDef, tier: Tier, shard: u64, nshards: u64, seed: u64, skip: Vec<u64>, describe: Option<u64>) {
@@ -297,7 +307,7 @@ pub fn worker_main(def: &PropDef, tier: Tier, shard: u64, nshards: u64, seed: u6
             }
         }
         // address-space limit: a runaway allocation becomes a crash observation, not an OOM of the box
-        let lim = libc::rlimit { rlim_cur: 6 << 30, rlim_max: 6 << 30 };
+        let lim = libc::rlimit { rlim_cur: 6 << 30, rlim_max: libc::RLIM_INFINITY };
         unsafe { libc::setrlimit(libc::RLIMIT_AS, &lim) };
     }
     let mut ctx = Ctx {
@@ -424,7 +434,7 @@ fn run_one_shard(def: &PropDef, tier: Tier, shard: u64, nshards: u64, seed: u64)
                 last_progress = (k, Instant::now());
             }
             // no progress on one case for 60 s, or overall far past the cap
-            if (k != 0 && k != u64::MAX && last_progress.1.elapsed() > Duration::from_secs(if def.id == "C18" { 15 } else { 60 })) || t0.elapsed() > Duration::from_secs(cap + 120) {
+            if (k != 0 && k < u64::MAX - 1 && last_progress.1.elapsed() > Duration::from_secs(if def.id == "C18" { 15 } else { 60 })) || t0.elapsed() > Duration::from_secs(cap + 120) {
                 let _ = child.kill();
                 hung = true;
                 break;
@@ -440,7 +450,7 @@ fn run_one_shard(def: &PropDef, tier: Tier, shard: u64, nshards: u64, seed: u64)
         // abnormal exit: which case?
         let k = read_u64s(&dir.join(format!("shard-{shard}.progress"))).first().copied().unwrap_or(0);
         let err_tail: String = String::from_utf8_lossy(&st.stderr).lines().rev().take(3).collect::<Vec<_>>().join(" | ");
-        if k == 0 || k == u64::MAX {
+        if k == 0 || k >= u64::MAX - 1 {
             return Err(format!("worker {shard} died outside a case ({}): {err_tail}", exit_desc(&st.status)));
         }
         let idx = k - 1;
@@ -482,7 +492,7 @@ pub struct Known {
 }
 
 pub fn load_known() -> Vec<Known> {
-    let p = format!("{VERIF_DIR}/known_findings.json");
+    let p = format!("{}/known_findings.json", verif_dir());
     let Ok(txt) = std::fs::read_to_string(&p) else { return vec![] };
     let v: Value = serde_json::from_str(&txt).unwrap_or_else(|e| {
         eprintln!("MACHINERY-ERROR: known_findings.json does not parse: {e}");
@@ -504,13 +514,13 @@ pub fn load_known() -> Vec<Known> {
 }
 
 fn fp_file(id: &str, fp: &str) -> String {
-    format!("{VERIF_DIR}/replays/{id}-{:016x}.json", h64(fp))
+    format!("{}/replays/{id}-{:016x}.json", verif_dir(), h64(fp))
 }
 
 /// replay a case in a fresh child process; returns the fingerprints observed (or crash marker)
 pub fn replay_in_child(id: &str, case: &Value) -> Result<Vec<String>, String> {
     let exe = std::env::current_exe().map_err(|e| e.to_string())?;
-    let dir = PathBuf::from(format!("{VERIF_DIR}/target/run"));
+    let dir = PathBuf::from(format!("{}/target/run", verif_dir()));
     let _ = std::fs::create_dir_all(&dir);
     let p = dir.join(format!("replay-{}-{:x}.json", std::process::id(), h64(&case.to_string())));
     std::fs::write(&p, json!({"property": id, "case": case}).to_string()).map_err(|e| e.to_string())?;
@@ -563,9 +573,9 @@ pub fn parent_main(def: &PropDef, tier: Tier) -> i32 {
     let dir = run_dir(def.id, tier);
     let _ = std::fs::remove_dir_all(&dir);
     std::fs::create_dir_all(&dir).expect("run dir");
-    let evidence_path = format!("{VERIF_DIR}/evidence/{}.json", def.id);
-    let _ = std::fs::create_dir_all(format!("{VERIF_DIR}/evidence"));
-    let _ = std::fs::create_dir_all(format!("{VERIF_DIR}/replays"));
+    let evidence_path = format!("{}/evidence/{}.json", verif_dir(), def.id);
+    let _ = std::fs::create_dir_all(format!("{}/evidence", verif_dir()));
+    let _ = std::fs::create_dir_all(format!("{}/replays", verif_dir()));
 
     // shards in parallel; VERIF_SEED only rotates the launch order
     let order: Vec<u64> = (0..nshards).map(|i| (i + seed) % nshards).collect();
